@@ -51,6 +51,9 @@ func derivesFromField(p *Prog, v ssa.Value, fld *types.Var, depth int) bool {
 	})
 }
 
+// c17NoImports: evaluate only C17's own rules (set while another property imports them, to keep imports acyclic)
+var c17NoImports bool
+
 func checkC17(p *Prog, res *Result, tier string) {
 	r := p.roles()
 	res.Explanation = "R1 anchored classification: both places that decide 'this key is a Kubernetes Event' — the branch that hands a TTL to the engine on create and the guard of the expiry deletes in the compaction scan — test bytes.HasPrefix(key, P) (never a substring search) where P derives from the configured key prefix through one and the same constructor, whose result provably ends with the path separator (append / concatenation of a constant that ends in '/'), so sibling directories such as '<prefix>/eventsinks' or keys merely containing '/events/' are not classified. R2 age guard: every expiry delete is dominated by 'revision <= timeoutRevision', and the timeout revision is produced only by the function that pops compaction marks that are older than the TTL (the mark-age test precedes every pop). R3 the index record is removed by compare-and-delete and version records by delete. R4 the scanner never reaches the event sink or the hub (expiry is silent). R5 the expiry code returns early on engines with native TTL, and create passes a non-zero TTL only through the classified branch."
@@ -60,6 +63,7 @@ func checkC17(p *Prog, res *Result, tier string) {
 	res.rule("C17-R2", "expiry deletes are guarded by revision <= timeoutRevision; marks are popped only when older than the TTL", 3)
 	res.rule("C17-R3", "index by compare-and-delete, versions by delete", 2)
 	res.rule("C17-R4", "no function of the scanner package reaches the event sink or the hub", 1)
+	res.rule("C17-R7", "every adapter compares before it deletes in its compare-and-delete (C11-R1): expiry relies on it for index records", 3)
 	res.rule("C17-R6", "expiry deletes follow the worker's failed-delete discipline with the record's user key, so that an event is removed wholly or its remaining records are left alone (C07-R4)", 2)
 	res.rule("C17-R5", "expiry disabled on engines with native TTL; TTL handed to the engine only on the classified branch", 2)
 
@@ -545,11 +549,24 @@ func checkC17(p *Prog, res *Result, tier string) {
 		}
 	}
 	// ---- R6: the failed-delete discipline on the expiry chains (C07-R4) ----
-	sub7 := newResult("C07")
-	checkC07(p, sub7, tier)
-	for _, o := range sub7.Obls {
-		if o.Rule == "C07-R4" && strings.Contains(o.Construct, "expiry site") {
-			res.add("C17-R6", o.Rule+" "+o.Construct, o.Status, o.Pos, o.Detail)
+	if !c17NoImports {
+		sub7 := newResult("C07")
+		checkC07(p, sub7, tier)
+		for _, o := range sub7.Obls {
+			if o.Rule == "C07-R4" && strings.Contains(o.Construct, "expiry site") {
+				res.add("C17-R6", o.Rule+" "+o.Construct, o.Status, o.Pos, o.Detail)
+			}
+		}
+	}
+
+	// ---- R7: adapters' compare-and-delete (C11-R1) ----
+	if !c17NoImports {
+		sub11 := newResult("C11")
+		checkC11(p, sub11, tier)
+		for _, o := range sub11.Obls {
+			if o.Rule == "C11-R1" && strings.Contains(o.Construct, "DelCurrent") {
+				res.add("C17-R7", o.Rule+" "+o.Construct, o.Status, o.Pos, o.Detail)
+			}
 		}
 	}
 
